@@ -36,7 +36,14 @@ def strategy():
   from hypothesis import strategies as st
   from harness import histories
   return st.fixed_dictionaries({
-      'backend': st.sampled_from(['ram', 'sqlmem']),
+      'backend': st.sampled_from(['ram', 'sqlmem', 'ram', 'sqlmem',
+                                  'sqlfile']),
+      # 'grpc' = every RPC gets a ServicerContext stand-in (the branches taken
+      # when the servicer is served remotely)
+      'context': st.sampled_from(['none', 'none', 'grpc']),
+      # positions after which a sqlfile-backed servicer is closed and a new one
+      # opened on the same file (clean restart)
+      'restarts': st.lists(st.integers(0, 39), max_size=3),
       'ops': histories.history_strategy(min_ops=8, max_ops=40),
   })
 
@@ -46,8 +53,13 @@ def check(case):
   from harness import service_model as sm
   out = core.Out()
   plan = svc.Plan()
-  s = svc.make_servicer(case['backend'],
-                        policy_factory=svc.HarnessPolicyFactory(plan))
+  tmp = svc.TmpFiles()
+  raw = svc.make_servicer(case['backend'], tmp=tmp,
+                          policy_factory=svc.HarnessPolicyFactory(plan))
+  use_ctx = case.get('context') == 'grpc'
+  s = histories.with_context(raw) if use_ctx else raw
+  restarts = set(case.get('restarts') or ()) if (
+      case['backend'] == 'sqlfile') else set()
   try:
     model = sm.Model(svc.std_config().to_proto(), svc.det_params)
     owners = histories.OWNERS
@@ -109,7 +121,21 @@ def check(case):
         out.violate('invariant/%s/after_%s' % (clause, kind),
                     'step %d op=%r: %s' % (step, op, detail))
       prev = cur
+      if step in restarts:
+        svc.close_servicer(raw)
+        raw = svc.make_servicer('sqlfile', tmp=tmp,
+                                policy_factory=svc.HarnessPolicyFactory(plan))
+        s = histories.with_context(raw) if use_ctx else raw
+        out.cls('clean_restart')
+        cur = svc.snapshot(s, owners)
+        if cur != prev:
+          out.violate('restart/state_changed',
+                      'step %d: stored studies/trials differ after closing '
+                      'and reopening the SQLite file' % step)
+          break
     out.nontrivial = rejected and touched_completed
+    if use_ctx:
+      out.cls('with_grpc_context')
     out.cls(case['backend'])
     if rejected:
       out.cls('rejected_mutation')
@@ -120,7 +146,8 @@ def check(case):
       if k in kinds:
         out.cls('has_' + k)
   finally:
-    svc.close_servicer(s)
+    svc.close_servicer(raw)
+    tmp.close()
   return out
 
 
@@ -129,7 +156,9 @@ def families(tier):
       core.Family('history', check, strategy=strategy,
                   budget={'quick': 1600, 'thorough': 40000},
                   shards={'quick': 16, 'thorough': 16},
-                  required_classes=('ram', 'sqlmem', 'rejected_mutation',
+                  required_classes=('ram', 'sqlmem', 'sqlfile',
+                                    'with_grpc_context', 'clean_restart',
+                                    'rejected_mutation',
                                     'completed_trial_touched_again',
                                     'has_delete_study', 'has_update_md',
                                     'has_set_state')),
